@@ -39,10 +39,15 @@ def gen_program(rng, tier):
             return None
         mv = MV(Inst(t, 2, DYN, pat), 1, es, rng.choice(sts))
     elif lay in (3, 4):
-        inst = Inst(t, lay, rng.choice([DYN, 2, 4]), pat)
+        inst = Inst(t, lay, rng.choice([DYN, DYN, 2, 4]), pat)
         if not inst.instantiable():
             return None
-        mv = MV(inst, 0, es)
+        if inst.pv == DYN and R >= 2 and rng.random() < 0.6:
+            # a run-time padding value: the mapping is not determined by its extents
+            pad = es[0] if lay == 3 else es[-1]
+            mv = MV(inst, 2, es, None, rng.choice([pad + 1, pad + 3, 8]))
+        else:
+            mv = MV(inst, 0, es)
     else:
         mv = MV(Inst(t, lay, DYN, pat), 0, es)
     if not mv.valid_for(t):
@@ -69,14 +74,15 @@ def gen_program(rng, tier):
     def ctor():
         nonlocal live
         kinds = [2, 4, 6]
-        if lay != 2:
+        ext_ok = lay != 2 and mv.ctor != 2      # constructors taking extents build the layout's default mapping
+        if ext_ok:
             kinds += [1, 3, 5]
             if R > 0:
                 kinds.append(0)
         if ctr == "pmr":
-            kinds += [8, 10, 12] + ([7, 9, 11] if lay != 2 else [])
+            kinds += [8, 10, 12] + ([7, 9, 11] if ext_ok else [])
         if ctr == "vector":
-            kinds += [8] + ([7] if lay != 2 else [])
+            kinds += [8] + ([7] if ext_ok else [])
         k = rng.choice(kinds)
         v = live; live += 1
         allv = ", ".join("static_cast<T>(es[%d])" % q for q in range(R))
@@ -165,6 +171,7 @@ def gen(rng, tier):
         body.append("std::printf(\"%s\\n\", o.s.c_str());")
         pr = Prog(None, "mdarray %s container=%s%s ops=%s" % (mv.inst.desc(), ctr, ("<%d>" % N) if N is not None else "", ops))
         pr.body = "\n    ".join(body)
+        pr.group = "stride" if mv.inst.lay == 2 else ("padded" if mv.inst.lay in (3, 4) else "lr")
         progs.append(pr)
         toks = [None] + mv.tokens() + [N if N is not None else -1, len(ops)]
         for op in ops:
